@@ -271,6 +271,9 @@ func applyNow(k *xmss.XMSS, op Op) (o outcome) {
 // step executes op on k (in place), checks every oracle for that transition and returns whether
 // the call was accepted. snapBefore may be nil (then refusal state-preservation is checked via a fresh snapshot taken here).
 func (e *explorer) step(k *xmss.XMSS, op Op, ops []Op) (accepted bool) {
+	if e.hung {
+		return false // an earlier operation never returned: every further call on these objects would cost a full timeout
+	}
 	e.res.Transitions++
 	idx := uint64(k.GetIndex())
 	before := k.VerifSnapshot()
